@@ -54,6 +54,20 @@
 (* scope when the parameter is attached (value field cmp / output field    *)
 (* cpy); an actual parameter of a user type needs a comparator in its      *)
 (* scope ("nocompare" otherwise).  Type names are data (strings).          *)
+(*                                                                         *)
+(* Objects (onObject): an expectation made on an object is met only by a   *)
+(* call on that very object, one made on no object (NoObj) by a call on    *)
+(* any object or on none.  Object identities are just that - the null      *)
+(* pointer (NullObj) is one of them: onObject(NULL) on an expectation      *)
+(* names an object like every other, and so does onObject(NULL) on a call. *)
+(*                                                                         *)
+(* The test around the scenario: a check of the test that has nothing to   *)
+(* do with the mock (CHECK, LONGS_EQUAL ...) may fail in the body          *)
+(* (CheckFails): that is then the test's first - and only - failure.  The  *)
+(* body of a failed test is left, its teardown still runs (Teardown marks  *)
+(* where the body ends): whatever the teardown - or anything else - asks   *)
+(* of the mock in a test that has already failed reports nothing more,     *)
+(* for whichever reason the test failed.                                   *)
 (***************************************************************************)
 EXTENDS MockValueOps
 
@@ -63,22 +77,27 @@ CONSTANTS Scopes,     \* scope names in play; "" (the global scope) must be amon
           Vals,       \* input parameter values (value records)
           ONames,     \* output parameter names
           OData,      \* output parameter payloads: records [ty, data]
-          Objs,       \* object identities (naturals > 0)
+          Objs,       \* object identities (integers other than NoObj; NullObj, the null pointer, may be among them)
           Rets,       \* return values (value records; NoVal = no return value)
           MaxExp, Ns, MaxCalls,
           RetGetters,           \* the ways a return value is read in the enumerated domain: records [g, od, d]
           LateExpect, Toggles,  \* model-checking switches: expectations after the first call / disable-enable explored
           Flags,                \* strictOrder / ignoreOtherCalls explored
+          Phases,               \* a failing check of the test itself (not a mock check) explored
           MaxInst,              \* enumeration bound: installations (comparators + copiers) per scope; 0 = none explored
           DKeys, DVals          \* data store keys and values explored ({} = the data store is not explored)
 
 NoVal == [t |-> "none"]
 Global == ""
+\* objects: NoObj - in an expectation: not made on an object (any object will do); in a call: not made on an object.
+\* Every other integer is an object identity; NullObj is the null pointer - an identity like every other
+NoObj == 0
+NullObj == 0 - 1
 
 \* ---------------------------------------------------------------- expectations and calls
-\* expectation: [fn, obj (0 = any object), ins : name -> value, outs : name -> [ty, data], ign, n, ret, lo, hi]
+\* expectation: [fn, obj (NoObj = any object), ins : name -> value, outs : name -> [ty, data], ign, n, ret, lo, hi]
 \* (lo, hi) = strict-order window, (0, 0) when created without strict ordering
-\* call (in progress / completed): [fn, obj (0 = not called on an object), given : name -> value, gout : name -> ty]
+\* call (in progress / completed): [fn, obj (NoObj = not called on an object), given : name -> value, gout : name -> ty]
 \* ---------------------------------------------------------------- user types: comparators and copiers
 \* object value: [t = "obj", tn (type name), c (content: a tuple of fields), id (which object holds that content: 0 = an object
 \* of its own, n > 0 = the n-th shared object with that content; may be absent)]; in an expectation: tn, c and cmp, the comparison
@@ -123,9 +142,9 @@ Copied(o) == IF o.cpy = "inv" THEN [i \in 1..Len(o.data) |-> 255 - o.data[i]] EL
 
 CompatIn(e, k, v) == IF k \in DOMAIN e.ins THEN EqP(e.ins[k], v) ELSE e.ign
 CompatOut(e, k, ty) == IF k \in DOMAIN e.outs THEN e.outs[k].ty = ty ELSE e.ign
-CompatObj(e, o) == e.obj = 0 \/ e.obj = o
+CompatObj(e, o) == e.obj = NoObj \/ e.obj = o
 HasAllParams(e, c) == DOMAIN e.ins \subseteq DOMAIN c.given /\ DOMAIN e.outs \subseteq DOMAIN c.gout
-HasObject(e, c) == e.obj # 0 => c.obj = e.obj
+HasObject(e, c) == e.obj # NoObj => c.obj = e.obj
 Complete(e, c) == HasAllParams(e, c) /\ HasObject(e, c)
 
 \* a completed call fits an expectation
@@ -157,7 +176,7 @@ MayCoincide(x, y) == IF x.t = "double" /\ y.t = "double" THEN DoubleMayCoincide(
 \* some call fits both expectations
 JointlySatisfiable(e1, e2) ==
     /\ e1.fn = e2.fn
-    /\ (e1.obj = 0 \/ e2.obj = 0 \/ e1.obj = e2.obj)
+    /\ (e1.obj = NoObj \/ e2.obj = NoObj \/ e1.obj = e2.obj)
     /\ \A k \in DOMAIN e1.ins \cap DOMAIN e2.ins : MayCoincide(e1.ins[k], e2.ins[k])
     /\ \A k \in DOMAIN e1.outs \cap DOMAIN e2.outs : e1.outs[k].ty = e2.outs[k].ty
     /\ (DOMAIN e1.ins \subseteq DOMAIN e2.ins /\ DOMAIN e1.outs \subseteq DOMAIN e2.outs) \/ e2.ign
@@ -166,7 +185,7 @@ JointlySatisfiable(e1, e2) ==
 Unambiguous(es) == \A i, j \in 1..Len(es) : (i < j /\ JointlySatisfiable(es[i], es[j])) => SameExp(es[i], es[j])
 
 \* ---------------------------------------------------------------- one scope
-NoCall == [phase |-> "none", fn |-> "", given |-> <<>>, gout |-> <<>>, obj |-> 0, cand |-> {}, match |-> 0, order |-> 0]
+NoCall == [phase |-> "none", fn |-> "", given |-> <<>>, gout |-> <<>>, obj |-> NoObj, cand |-> {}, match |-> 0, order |-> 0]
 Scope(live, ign, en, st, repo) ==
     [live |-> live, exps |-> <<>>, used |-> <<>>, ooo |-> {}, strict |-> st, expOrder |-> 0, actOrder |-> 0,
      ignoreOthers |-> ign, enabled |-> en, cur |-> NoCall, made |-> <<>>, data |-> <<>>, repo |-> repo]
@@ -233,7 +252,7 @@ OutParamIn(m, k, ty) ==
                            ELSE {"badoutname", "badouttype"}]
             ELSE [m |-> [m EXCEPT !.cur.cand = c2, !.cur.gout = @ @@ (k :> ty)], cats |-> {}]
 
-\* onObject(o)
+\* onObject(o): o is an object identity - the null pointer as good as any other
 ObjectIn(m, o) ==
     IF m.cur.phase = "ignored" THEN [m |-> m, cats |-> {}]
     ELSE LET c2 == { i \in m.cur.cand : CompatObj(m.exps[i], o) }
@@ -275,7 +294,8 @@ FailedWith(cats) == failed' = TRUE /\ \E c \in cats : why' = c /\ res' = [k |-> 
 Outcome(s, o, okres) ==
     /\ ms' = [Touched(s) EXCEPT ![s] = o.m] /\ created' = CreatedAfter(s)
     /\ IF o.cats = {} THEN Passed(okres) ELSE FailedWith(o.cats)
-\* after the first failure nothing has any effect (the test has been left)
+\* after the first failure - of the mock or of another check of the test (CheckFails) - nothing has any effect on the test: the
+\* rest of the body is not executed, and what is still asked of the mock (in the teardown) reports nothing
 Dead(op) == failed /\ last' = op /\ res' = [k |-> "skipped"] /\ UNCHANGED <<ms, created, failed, why>>
 
 \* expectOneCall / expectNCalls / expectNoCall with its parameters, object, return value
@@ -303,7 +323,7 @@ OutParam(s, k, ty) ==
        /\ last' = "outparam" /\ Outcome(s, OutParamIn(ms[s], k, ty), Ok)
 OnObject(s, o) ==
     \/ Dead("object")
-    \/ /\ ~failed /\ ms[s].live /\ ms[s].cur.phase \in {"open", "ignored"} /\ ms[s].cur.obj = 0 /\ o # 0
+    \/ /\ ~failed /\ ms[s].live /\ ms[s].cur.phase \in {"open", "ignored"} /\ ms[s].cur.obj = NoObj /\ o # NoObj
        /\ last' = "object" /\ Outcome(s, ObjectIn(ms[s], o), Ok)
 \* hasReturnValue() / returnValue() of the scope's last actual call, and the output buffers afterwards.
 \* g = "value": the generic returnValue().  g = a getter name: the typed getter xxxReturnValue(); with od = TRUE the
@@ -410,6 +430,15 @@ RemoveAll(s) ==
     \/ /\ ~failed /\ last' = "removeall" /\ res' = [k |-> "ok", s |-> s] /\ UNCHANGED <<failed, why>> /\ created' = CreatedAfter(s)
        /\ LET t == Touched(s) IN
           ms' = [x \in Scopes |-> IF t[x].live /\ (x = s \/ s = Global) THEN [t[x] EXCEPT !.repo = <<>>] ELSE t[x]]
+\* ---------------------------------------------------------------- the test around the scenario
+\* a check of the test that is not a mock check fails in the body: the test's first failure (category "check"), the body is left.
+\* The mock is not touched
+CheckFails == \/ Dead("failcheck")
+              \/ /\ ~failed /\ last' = "failcheck" /\ failed' = TRUE /\ why' = "check" /\ res' = [k |-> "check"]
+                 /\ UNCHANGED <<ms, created>>
+\* the body of the test is over (completed or left) and its teardown begins: nothing changes for the mock.  In a test that has
+\* failed - through the mock or through CheckFails - the teardown's calls fall under Dead: they report nothing
+Teardown == Dead("teardown") \/ (Plain("teardown") /\ UNCHANGED ms)
 \* ---------------------------------------------------------------- how often a deviation is reported
 \* A verdict step (checkExpectations, expectedCallsLeft, the end-of-test check of MockSupportPlugin) may run under a
 \* reporter that does not end the test (the plugin's reporter adds the failure to the test result, a recording reporter
@@ -440,8 +469,11 @@ CheckReportsOK(R) == ReportedOnce(R, Deviations(ms))
 LeftReportsOK(R) == ReportedOnce(R, StuckCalls(ms))
 \* the end of the test: the verdict is the first failure, or else what checkExpectations says now (MockSupportPlugin);
 \* then everything is cleared for the next test.  R: the failures the test has recorded - the first failure ends a
-\* test at once (nothing is checked at the end of a failed test), otherwise what the end-of-test check delivers
-EndReportsOK(R) == IF failed THEN R = <<why>> ELSE CheckReportsOK(R)
+\* test at once (nothing is checked at the end of a failed test, and nothing its teardown asked of the mock was added),
+\* otherwise what the end-of-test check delivers
+\* (what may follow the first failure is a failing check of the test itself - e.g. in the teardown a typed getter that reads a
+\* value of another type - never a further report of the mock)
+EndReportsOK(R) == IF failed THEN R # <<>> /\ R[1] = why /\ \A i \in 2..Len(R) : R[i] = "check" ELSE CheckReportsOK(R)
 End == /\ last' = "end" /\ created' = <<>> /\ ms' = FreshScopes /\ failed' = FALSE /\ why' = ""
        /\ IF failed THEN res' = [k |-> why]
           ELSE LET f == FinishAll(ms, Visit, 1)
@@ -451,7 +483,7 @@ End == /\ last' = "end" /\ created' = <<>> /\ ms' = FreshScopes /\ failed' = FAL
 -----------------------------------------------------------------------------
 \* Enumerated domain (model checking and generation)
 Assign(Ks, Vs) == UNION { [S -> Vs] : S \in SUBSET Ks }
-ExpSet == [fn : Fns, obj : {0} \cup Objs, ins : Assign(PNames, Vals), outs : Assign(ONames, OData), ign : BOOLEAN, n : Ns, ret : Rets]
+ExpSet == [fn : Fns, obj : {NoObj} \cup Objs, ins : Assign(PNames, Vals), outs : Assign(ONames, OData), ign : BOOLEAN, n : Ns, ret : Rets]
 OTypes == { d.ty : d \in OData }
 NCalls == LET RECURSIVE S(_) S(T) == IF T = {} THEN 0 ELSE LET s == CHOOSE s \in T : TRUE IN ms[s].actOrder + S(T \ {s}) IN S(Scopes)
 NExp(s) == Len(ms[s].exps)
@@ -488,6 +520,7 @@ Next ==
        \/ Toggles /\ Disable /\ ms[Global].enabled
        \/ Toggles /\ Enable /\ ~ms[Global].enabled
        \/ AnyOpen /\ Left
+       \/ Phases /\ CheckFails
        \/ Check
 Spec == Init /\ [][Next]_vars
 
